@@ -53,6 +53,7 @@ def correspondence(ctx):
             continue
         rng = ctx.rng("c13", name)
         bench = B.Bench(name, rng, size=14)
+        B.probe_unrankable(ctx, "C13", bench)
         stream = "presentation:" + name
         if not bench.ok(9):
             ctx.stream(stream)["skipped"] = "pool too small"
